@@ -50,6 +50,17 @@ CHECKS = {
              'to end, every enumerated segment and byte range fetched and compared with an independent scan of the stored file, and '
              'TLC evaluates the C06 clauses on each walk.',
         note=LW_NOTE + ' N is read as the stored segment count; fixture streams bbb and tears.', design='4 C06'),
+    'C07': dict(
+        technique='TLA+ spec Options.tla (forwarding and non-forwarding clauses over a registry generated from the code): TLC on the forwarding '
+                  'rule; real manifests whose init/media URL queries are re-parsed by the media endpoint\'s own parser; codec round trips; TLC trace validation',
+        text='The option registry (55 options today) is discovered at check time; every option x value class singly, plus seeded subsets, is '
+             'given to the manifest endpoint; for every AdaptationSet the initialization and media URL templates are re-parsed in a request '
+             'context of the media route and TLC compares, per influencing option and media type, the value the manifest resolved with the '
+             'value the media endpoint obtains, checks that no option outside a media type\'s usage mask appears in its URLs, and checks '
+             'from_string(to_string(v)) = v for every option and value class.',
+        note='Trusted: TLC, lxml; both sides are parsed with the server\'s own option parser (the property is agreement between the two '
+             'endpoints). Options without value classes in checks/c07.py are listed in the evidence (options_without_value_classes).',
+        design='4 C07'),
     'C08': dict(
         technique='TLA+ spec LiveParams.tla (integer civil calendar): TLC over a calendar grid x start x depth x mup; every state '
                   'replayed on the real DashTiming and through rendered manifests; TLC trace validation incl. relational clauses',
